@@ -393,7 +393,7 @@ def run(ctx):
 
     nreq = sum(len(p) for p in plans)
     nmreq = sum(len(r) for _, r in mdocs)
-    ctx.level = "other"
+    ctx.level = "proof" if proved else "other"
     ctx.cov.update({
         "evaluations": nreq + nmreq + nk + sum(len(r) for _, r in cdocs),
         "distinct_nontrivial": len(nontrivial),
@@ -442,11 +442,16 @@ EXPLANATION = (
     "C14_global_position); no identifier / no context / no entry => no answer; no panic under cursor_pre (evaluated by the judge on "
     "every document of this run: 0 exceptions); signature help answers only with a procedure entry of the global table named like a "
     "call statement whose text range contains the cursor, one parameter label per parameter, active parameter = number of commas of "
-    "the statement that start before the cursor (None iff no parameters). NOT proved: signature help inside every argument list of "
-    "every valid program (C14_sighelp_full_statement) and the hover statement in its formulation over 'documents without diagnostics' "
+    "the statement that start before the cursor (None iff no parameters). Signature help, for every VALID program in every layout "
+    "(C14_sighelp_valid, C14_sighelp_valid_arg, C14_sighelp_valid_full, C14_sighelp_valid_none, C14_sighelp_valid_text): at every call "
+    "statement of the tree, at any nesting depth, and every cursor index from behind `(` to `)`, the answer is the signature of THE "
+    "procedure entry of the callee with one label per declared parameter and the active parameter = the number of commas of that call "
+    "in front of the cursor = the index of the argument the cursor stands in; no call statement around the cursor => no answer. (The "
+    "model - like the code - also answers on the callee name, the comments in front of the call and on `)` `;`: more than the property "
+    "asks for, not a violation.) NOT proved: the statements in their formulation over 'documents without diagnostics' "
     "(needs completeness of the front end); that the entry's recorded signature/doc comments are those of the declaration is the "
     "wf_gdecl relation of Spec/Typing.v (doc comments: concatenation of the comment texts). These, the model's faithfulness to the "
-    "Rust code and signature-help robustness are validated by (a) correspondence of the model with the running server on every "
+    "Rust code are validated by (a) correspondence of the model with the running server on every "
     "request of this run (extracted judge, plus a kernel vm_compute sample) and (b) the implementation-only oracle from splscope's "
     "bindings and the rendered layout. The former defect C14-hover-local-before-global (hover resolved the procedure's own name and "
     "type names in the local table first) is repaired in /repo b909979; its witnesses are regression corpus and the class is "
